@@ -8,6 +8,9 @@ CLAIMED = {
     "C01": dict(cat="model_checking", tech="TLA+ terminal model (spec/term) + TLC trace validation of per-character executions of the real emulations; crash containment by worker processes",
                 text="Every character fed to each of the ten text emulations is one recorded step judged by Trace_Term under TLC (outcome must be an action or an error; a worker abort is a crash event). Streams come from the control-function table x parameter classes, sub-language strings, front-end lead-ins, random bytes, on screens 1..132 x 1..60. Observation of generated executions, not a proof.",
                 note="dev-profile build (overflow checks); catch_unwind per character; aborts attributed via progress file", ref="4/C01"),
+    "C02": dict(cat="fault_enumeration", tech="format layouts specified in TLA+ (Loader.tla) from which TLC computes structure-aware faults for the engine's own files; every truncation / header extreme / corruption / re-wrapped IcyDraw chunk / SAUCE tail class loaded by the real loaders in crash-contained workers; outcomes judged by TLC (Trace_Loader), SAUCE splits compared with Sauce.tla",
+                text="Loader.tla computes the field layout of each seed file from its real header bytes and TLC emits every boundary truncation (-1/0/+1) and every numeric-field extreme; together with all byte-level truncations, header byte/u16/u32 extremes, corruptions, IcyDraw chunk-payload mutations, terminal streams loaded as files, every SAUCE-tail class and random inputs (about 140 000 loads per quick run, all entry points of the property) each load must return a value or an error; worker aborts and hangs are attributed to the load. Decoder totality of the spec decoders (Sauce, Fonts, Tdf) is model-checked.",
+                note="fault enumeration over the engine's own output plus random inputs; not a proof of the loaders", ref="4/C02"),
     "C03": dict(cat="model_checking", tech="complete control-function table x extreme parameter classes + macro/sixel/font/avatar extremes executed against the real emulations under a 5 s / 1 GiB sandbox; limits judged by TLC on the trace (Trace_Term), post-states compared with the clamped Term.tla model; GrowthBounded model-checked",
                 text="Every CSI final x intermediate x parameter vector over {0,1,80,25,2^16,10^6,2^31-1} (all vectors up to length 1-2, seeded beyond), recursive macros, hex repeat groups, sixel raster/repeat/colour headers, font DCS payloads and Avatar repeats run in crash-contained workers with a 5 s watchdog and 1 GiB address space; a timeout, allocation failure, stack overflow or a >5 s step is a violation. The model's clamps are model-checked (GrowthBounded) and each post-state is compared with the model.",
                 note="time and memory are measured on this machine with the property's own generous limits; file-header extremes are exercised by the C02 check", ref="4/C03"),
